@@ -31,7 +31,9 @@ CONDS = [
     ("isinstance(x, dict)", "dict", None), ("isinstance(x, complex)", "complex", None), ("isinstance(x, bytes)", "bytes", None), ("isinstance(x, type(None))", "None", None),
     ("issubclass(x, B)", "type[B]", None), ("issubclass(x, int)", "type[int]", None), ("issubclass(x, (A, str))", "Union[type[A], type[str]]", None),
     ("x is None", "None", None), ("x is not None", "None", None), ("x is True", "Literal[True]", None), ("x is False", "Literal[False]", None),
-    ("x is E.X", "Literal[E.X]", None), ("x is not E.X", "Literal[E.X]", None),
+    ("x is E.X", "Literal[E.X]", None), ("x is not E.X", "Literal[E.X]", None), ("x is not True", "Literal[True]", None), ("x is not False", "Literal[False]", None),
+    ("None is x", "None", None), ("None is not x", "None", None), ("1 == x", "Literal[1]", [1]), ("E.X != x", "Literal[E.X]", []),
+    ("0 < len(x)", None, None), ("1 <= len(x)", None, None), ("2 > len(x)", None, None), ("1 == len(x)", None, None), ("1 < len(x)", None, None), ("2 <= len(x)", None, None),
     ("x == 1", "Literal[1]", [1]), ("x != 1", "Literal[1]", [1]), ("x == 'a'", "Literal['a']", ["a"]), ("x != 'a'", "Literal['a']", ["a"]), ("x == E.X", "Literal[E.X]", []),
     ("x != E.X", "Literal[E.X]", []), ("x == None", "None", [None]), ("x == True", "Literal[True]", [True]), ("x == 0", "Literal[0]", [0]), ("x == ()", "tuple[()]", [()]),
     ("x == 1.5", "Literal[1.5]", [1.5]), ("x == b'a'", "Literal[b'a']", [b"a"]),
@@ -48,11 +50,12 @@ CONDS = [
 PATTERNS = [
     ("int()", "int", None), ("str()", "str", None), ("A()", "A", None), ("float()", "float", None), ("bool()", "bool", None), ("tuple()", "tuple", None),
     ("1", "Literal[1]", [1]), ("'a'", "Literal['a']", ["a"]), ("None", "None", None), ("True", "Literal[True]", None), ("E.X", "Literal[E.X]", []),
-    ("[a, b]", "Sequence[object]", None), ("[a, *r]", "Sequence[object]", None), ("[]", "Sequence[object]", None), ("[a]", "Sequence[object]", None),
+    ("[a, b]", "Sequence[object]", None), ("[a, *r]", "Sequence[object]", None), ("[*r, a]", "Sequence[object]", None), ("[*r]", "Sequence[object]", None),
+    ("[a, *r, b]", "Sequence[object]", None), ("[*r, a, b]", "Sequence[object]", None), ("[a, b, *r]", "Sequence[object]", None), ("[a, b, c]", "Sequence[object]", None), ("[]", "Sequence[object]", None), ("[a]", "Sequence[object]", None),
     ("{'a': v}", "Mapping[object, object]", None), ("(1, b)", "Sequence[object]", [1]), ("int() | None", "Optional[int]", None),
     ("1 | 2", "Literal[1, 2]", [1, 2]), ("[int(), str()]", "Sequence[object]", None), ("list()", "list", None), ("dict()", "dict", None),
 ]
-EXTRA_V = ["int | None", "int | str", "str | None", "float | None", "bool | None", "A | None", "A | C", "E | None", "tuple[int] | tuple[str, int]", "list[int] | None",
+EXTRA_V = ["Literal[0, False]", "Literal[1, True, None]", "tuple[int] | tuple[int, int, int]", "tuple[()] | tuple[str]", "tuple[int, int] | tuple[int, int, int] | None", "int | None", "int | str", "str | None", "float | None", "bool | None", "A | None", "A | C", "E | None", "tuple[int] | tuple[str, int]", "list[int] | None",
            "int | list[int]", "type[int] | type[str]", "bytes | str", "float | str", "tuple[int, ...] | None", "Literal[1, 'a', None]", "int | str | None", "object",
            "tuple[int, str] | None", "tuple[()] | tuple[int]", "list[int] | tuple[int, ...]", "dict[str, int] | None", "type[A] | None", "IE | str", "bool | str", "D | None", "A | int"]
 
